@@ -306,10 +306,13 @@ def parseLoop (cfg : Config) (data : Bytes) : Nat → Next → Nat → Bool → 
     if next.callable ∧ offset ≤ data.length then
       let pc : PC := ⟨encap, (calls.lookup next.parserIndex).getD 0, cfg.ports⟩
       let r := runParser next.parser m (data.drop offset) pc
-      match mapLayerKeys cfg data offset encap next.keys r.msg with
+      -- a parser that found its header cut short adds no layer: no mappings, no size for it
+      -- (after the `fix:` commits; the pinned tree mapped and appended a size in every round)
+      let recognised := decide (m.layerStack.length < r.msg.layerStack.length)
+      match (if recognised then mapLayerKeys cfg data offset encap next.keys r.msg else .ok r.msg) with
       | .error e => .error e
       | .ok m1 =>
-        let m2 := { m1 with layerSize := m1.layerSize ++ [r.size % 2 ^ 32] }
+        let m2 := if recognised then { m1 with layerSize := m1.layerSize ++ [r.size % 2 ^ 32] } else m1
         -- the layer the next one is compared with: the last layer that does not skip the comparison
         -- (after the `fix:` commit; the pinned tree compared with the current layer, so GRE + MPLS + IP
         -- left the inner IP un-encapsulated)
